@@ -98,6 +98,7 @@ class World:
         self.cliques = [tuple(c) for c in cliques]
         self.order = None if order is None else list(reversed(self.attrs))
         self.total = total
+        self.vclass = vclass
         rng = np.random.RandomState(rngseed % 2 ** 31)
         self.in_pots = []
         seen = []
@@ -106,6 +107,8 @@ class World:
                 continue
             seen.append(c)
             a = rng.randn(*[self.sizes[self.attrs.index(x)] for x in c])
+            if vclass == 'x400':
+                a = a * 400.0   # slices differ by far more than 745 nats; the answers must stay exact
             if vclass == 'neginf':
                 a.reshape(-1)[(len(seen) * 3) % a.size] = -np.inf
             self.in_pots.append((c, a))
@@ -182,6 +185,8 @@ def apply_op(w, m, op, tier, acc):
             else:
                 check_factor(w, ans[t], t, 'calculate_many_marginals([%r])' % (t,), fails)
             acc.evals += 1
+    elif op == 'krondot' and getattr(w, 'vclass', '') == 'x400':
+        pass   # krondot works in probability space (exp of the potentials): magnitudes beyond ~700 overflow by design; C02 has no magnitude clause
     elif op == 'krondot':
         kinds = ['mixed', 'identity', 'ones', 'prefix', 'generic']
         if tier == 'thorough' and len(attrs) == 3:
@@ -284,7 +289,9 @@ def worlds_for(job):
         cliques = S.present(attrs, S.graph_by_mask(k, job['mask']), job['pres'])
         tag = '%d/%d/%s' % (k, job['mask'], job['pres'])
     for sizes_name, order in job['cfgs']:
-        for vi, vclass in enumerate(['generic', 'neginf']):
+        for vi, vclass in enumerate(['generic', 'neginf', 'x400']):
+            if vclass == 'x400' and (sizes_name != 'main' or order is not None):
+                continue
             total = [1.0, 7.5][(job.get('mask', 0) + vi) % 2]
             desc = {'model': tag, 'k': k, 'cliques': [list(c) for c in cliques], 'sizes': sizes_name, 'order': order,
                     'vclass': vclass, 'total': total, 'seed': job['seed']}
